@@ -428,5 +428,5 @@ func min64(a, b int64) int64 {
 }
 
 func TestConcurrentRoundTrip(t *testing.T) {
-	vt.Run(t, cConc, vt.N(2000, 48000), genConc, runConc)
+	vt.Run(t, cConc, vt.N(1600, 48000), genConc, runConc)
 }
